@@ -354,7 +354,15 @@ Inductive op :=
 | OpCaPostcard (b : bytes)  (* postcard::from_bytes::<CustomAddr> *)
 | OpCaRt (id : N) (d : bytes)  (* from_parts through every encoding and back *)
 | OpEaRt (e : eaddr)        (* EndpointAddr -> postcard -> EndpointAddr *)
-| OpEaPostcard (b : bytes). (* postcard::from_bytes::<EndpointAddr> *)
+| OpEaPostcard (b : bytes)  (* postcard::from_bytes::<EndpointAddr> *)
+(* PublicKey::try_from(k) then PublicKey::verify(m, Signature::from_bytes(sg)), key.rs:134-138.
+   [honest]: the harness produced sg by SecretKey::sign of exactly m under the secret key of
+   exactly k (it says so in the input; every other case - another message, another key, a
+   changed or crafted signature - has honest = false).
+   [vo]: the verification oracle's entry for (k, m, sg).  Ed25519 is not modelled; the model
+   answers with this entry, which is part of the INPUT and which the harness fills with what
+   the property demands of strict verification (vo = honest). *)
+| OpVerify (k m sg : bytes) (honest vo : bool).
 
 Definition oracle := list (bytes * bool).
 Definition url_oracle := list (bytes * res bytes).
@@ -449,6 +457,8 @@ Definition model (i : input) : output :=
       Ok (OEa e' [Ok b; flag (forallb v6_noflow (eaddrs e))])
   | OpEaPostcard b =>
       no_trailing (ea_dec isp up b) >>= fun e' => Ok (OEa e' [ea_enc e'])
+  | OpVerify k m sg honest vo =>
+      pk_try_from_slice isp k >>= fun _ => Ok (OBytes [flag vo])
   end.
 
 Definition rb_eqb : res bytes -> res bytes -> bool := res_eqb bytes_eqb.
@@ -500,6 +510,7 @@ Definition candidate (i : input) : option bytes :=
   | OpPkSlice b | OpPkRt b => if (length b =? 32)%nat then Some b else None
   | OpPkPostcard b | OpEaPostcard b => if (length b <? 32)%nat then None else Some (firstn 32 b)
   | OpEaRt e => Some (eid e)
+  | OpVerify k _ _ _ _ => if (length k =? 32)%nat then Some k else None
   | _ => None
   end.
 
@@ -627,6 +638,19 @@ Definition monitor (i : input) (o : output) : bool :=
       | Err _ => true
       | Panic => false
       end
+  | OpVerify k m sg honest vo =>
+      (* "A signature made with a secret key verifies under its public key and fails for any
+         other message or key": the OBSERVED result must be "accepted" exactly for the honest
+         cases.  Outside the quantifier: an oracle entry that is not what the property demands
+         (the harness always writes vo = honest), and an "honest" case whose key is not a
+         32-byte curve point (a key derived from a secret key always is). *)
+      if negb (Bool.eqb vo honest) || (honest && negb ((length k =? 32)%nat && isp k)) then true else
+      match o with
+      | Ok (OBytes [Ok [f]]) => N.eqb f (if honest then 1 else 0)
+      | Ok _ => false
+      | Err _ => negb honest       (* the key is refused by the parser: nothing verifies under it *)
+      | Panic => false
+      end
   end.
 
 (* Known-finding class 1: an EndpointAddr holding a SocketAddrV6 with non-zero flow info
@@ -642,13 +666,16 @@ Definition op_index (o : op) : N :=
   | OpPkStr _ => 1 | OpPkZ32 _ => 2 | OpPkSlice _ => 3 | OpPkPostcard _ => 4 | OpPkJson _ => 5
   | OpSkStr _ => 6 | OpPkRt _ => 7 | OpSigPostcard _ => 8 | OpCaStr _ => 9 | OpCaBytes _ => 10
   | OpCaPostcard _ => 11 | OpCaRt _ _ => 12 | OpEaRt _ => 13 | OpEaPostcard _ => 14
+  | OpVerify _ _ _ _ _ => 15
   end.
 
 (* branch tag: 10 * operation + outcome (1 = accepted, 1 + e = error code e, capped at 9);
    the heap representation of an accepted/round-tripped CustomAddr adds 100 *)
 Definition tag (i : input) : N :=
   let o := fst (fst i) in
-  let out := match model i with Ok _ => 1 | Err e => N.min 9 (1 + e) | Panic => 9 end in
+  let out := match o, model i with
+             | OpVerify _ _ _ honest _, Ok _ => if honest then 1 else 2   (* 151 accepted / 152 must be rejected *)
+             | _, Ok _ => 1 | _, Err e => N.min 9 (1 + e) | _, Panic => 9 end in
   let heap := match o with
               | OpCaRt _ d => if (length d <=? 30)%nat then 0 else 100
               | _ => match model i with
